@@ -136,12 +136,37 @@ def zIncBy (cur : List (Int × Bytes)) (d : Int) (m : Bytes) : List (Int × Byte
 /-- `List.RPush` -/
 def rpush {α : Type} (l elems : List α) : List α := l ++ elems
 
+/-! ## hash.go: a Go map as its entries (one entry per key; iteration order is not part of any reply that is compared in order) -/
+
+abbrev GoMap := List (Bytes × Bytes)
+
+/-- Go map assignment `m[k] = v` on a map represented by its entries (one entry per key) -/
+def mapAssign (m : GoMap) (k v : Bytes) : GoMap :=
+  if (m.lookup k).isSome then m.map (fun p => if p.1 == k then (k, v) else p) else m ++ [(k, v)]
+
+/-- `delete(m, k)` -/
+def mapDelete (m : GoMap) (k : Bytes) : GoMap := m.filter (fun p => !(p.1 == k))
+
+/-- `Hash.Set(field, val, opt)` of hash.go: returns the map and the reply (1 = a new field) -/
+def hashSet (h : GoMap) (field val : Bytes) (nx : Bool) : GoMap × Int :=
+  let hasKey := (h.lookup field).isSome
+  if nx && hasKey then (h, 0) else
+  let h := mapAssign h field val
+  if hasKey then (h, 0) else (h, 1)
+
+/-- `Hash.Del(fields)`: `for _, field := range fields { if _, ok := hash[field]; !ok { continue }; delete(hash, field); removed++ }` -/
+def hashDel (h : GoMap) (fields : List Bytes) : GoMap × Nat :=
+  fields.foldl (fun (acc : GoMap × Nat) f =>
+    if (acc.1.lookup f).isSome then (mapDelete acc.1 f, acc.2 + 1) else acc) (h, 0)
+
 /-- The Go functions transcribed above, with the fingerprint of the source they were transcribed from (FNV-1a 64 of the
 function's signature and body as go/printer prints them, comments dropped, whitespace collapsed) and the definition
 that transcribes them.  `Generated.exStoreFingerprints` is regenerated from /repo on every run and must equal this
 table (`C18_source_is_the_modelled_one`): a change to any of these functions means this file no longer describes the
 code, and the theorems about it say nothing about the code any more, until the transcription is brought up to date. -/
 def modelled : List (String × Nat × String) := [
+  ("Hash.Del", 12988852625961833629, "Ex.hashDel"),
+  ("Hash.Set", 17556556149426256850, "Ex.hashSet"),
   ("List.Index", 2895265718274309793, "Ex.index"),
   ("List.LPop", 15164786233721968043, "Ex.lpopLoop"),
   ("List.LPush", 9616840625249962546, "Ex.lpush"),
